@@ -2487,8 +2487,14 @@ static Node *cast(Token **rest, Token *tok) {
 //       | "&&" ident
 //       | postfix
 static Node *unary(Token **rest, Token *tok) {
-  if (equal(tok, "+"))
-    return cast(rest, tok->next);
+  if (equal(tok, "+")) {
+    // Unary plus performs the integer promotions on its operand.
+    Node *node = cast(rest, tok->next);
+    add_type(node);
+    if (is_integer(node->ty) && node->ty->size < 4)
+      return new_cast(node, ty_int);
+    return node;
+  }
 
   if (equal(tok, "-"))
     return new_unary(ND_NEG, cast(rest, tok->next), tok);
@@ -2789,6 +2795,31 @@ static Node *struct_ref(Node *node, Token *tok) {
 // Convert A++ to `(typeof A)((A += 1) - 1)`
 static Node *new_inc_dec(Node *node, Token *tok, int addend) {
   add_type(node);
+
+  // A _Bool saturates, so the old value cannot be recovered from the
+  // new one. Convert `A++` to `tmp = &A, old = *tmp, *tmp += 1, old`.
+  if (node->ty->kind == TY_BOOL && !node->ty->is_atomic) {
+    Obj *tmp = new_lvar("", pointer_to(node->ty));
+    Obj *old = new_lvar("", node->ty);
+
+    Node *expr1 = new_binary(ND_ASSIGN, new_var_node(tmp, tok),
+                             new_unary(ND_ADDR, node, tok), tok);
+    Node *expr2 = new_binary(ND_ASSIGN, new_var_node(old, tok),
+                             new_unary(ND_DEREF, new_var_node(tmp, tok), tok),
+                             tok);
+    Node *expr3 = new_binary(ND_ASSIGN,
+                             new_unary(ND_DEREF, new_var_node(tmp, tok), tok),
+                             new_add(new_unary(ND_DEREF, new_var_node(tmp, tok), tok),
+                                     new_num(addend, tok), tok),
+                             tok);
+    return new_binary(ND_COMMA, expr1,
+                      new_binary(ND_COMMA, expr2,
+                                 new_binary(ND_COMMA, expr3,
+                                            new_var_node(old, tok), tok),
+                                 tok),
+                      tok);
+  }
+
   return new_cast(new_add(to_assign(new_add(node, new_num(addend, tok), tok)),
                           new_num(-addend, tok), tok),
                   node->ty);
